@@ -309,6 +309,45 @@ fn full(ma: u64, mi: u64, pa: u64, pre: &str) -> Partial {
 pub fn run(ctx: &mut Ctx) {
     let tags = ["0", "alpha", "beta", "rc.1", "rc.1.0", "zzz", "-"];
     let tuples = [(1u64, 2u64, 3u64), (0, 0, 0), (0, 0, 1), (0, 1, 0), (1, 0, 0), (2, 0, 0)];
+    // the constructed catch-all has no comparator at all, hence no tag: it admits every
+    // release and no prerelease, directly and through Version::satisfies / max / min_satisfying
+    ctx.stratum("A-range-any", true);
+    if ctx.take() {
+        ctx.begin(|| "C03 Range::any()".to_string());
+        if let Ok(any) = guarded(nodejs_semver::Range::any) {
+            let mut basis = vec![];
+            for t in tuples {
+                for tag in tags {
+                    basis.push(MV::new(t.0, t.1, t.2).with_pre_s(tag));
+                }
+            }
+            let both = guarded(|| any.intersect(&any));
+            for v in crate::gen::probe_set(&basis) {
+                ctx.eval(1);
+                ctx.class("range-any");
+                let cv = v.to_crate();
+                let got = guarded(|| (any.satisfies(&cv), cv.satisfies(&any), any.max_satisfying(std::slice::from_ref(&cv)).is_some(), both.as_ref().ok().and_then(|b| b.as_ref()).map(|b| b.satisfies(&cv))));
+                match got {
+                    Ok((s1, s2, s3, s4)) => {
+                        let want = !v.is_pre();
+                        if s1 != want || s2 != want || s3 != want || s4.map(|x| x != want).unwrap_or(false) {
+                            ctx.violation(
+                                if want { "release-affected/range-any" } else { "gate-leaks/range-any" },
+                                json!({"range": "Range::any()", "version": v.text()}),
+                                format!("Range::any() and {}: Range::satisfies={} Version::satisfies={} max_satisfying.is_some={} any∩any satisfies={:?}; no comparator carries a tag, expected {}", v.text(), s1, s2, s3, s4, want),
+                            );
+                            break;
+                        }
+                        ctx.nontrivial(&format!("any {}", v.text()));
+                    }
+                    Err(p) => {
+                        ctx.violation(&format!("panic/{}", p.site), json!({"range": "Range::any()", "version": v.text()}), p.message);
+                        break;
+                    }
+                }
+            }
+        }
+    }
     ctx.stratum("F-every-tagged-form", true);
     for op in ALL_OPS {
         for t in tuples {
